@@ -168,6 +168,7 @@ class Item:
         self.relpath, self.anchor, self.buf, self.first_line, self.sha = relpath, anchor, buf, first_line, sha
         self.rules_applied = []
         self.hints_lost = []
+        self.clauses = []
 
     # -- searching -----------------------------------------------------------------------------
     def _code_find(self, regex, lo=0, hi=None, what=None, nth=None, flags=re.S):
@@ -282,10 +283,23 @@ class Item:
     def _insert_clauses(self, off, clauses, fn):
         # insert in reverse so that offsets stay valid; all go right before the `{` at off
         lines, origins = [], []
-        for cid, kind, text in clauses:
+        prev_kw = None
+        for cl in clauses:
+            cid, kind, text = cl[0], cl[1], cl[2].strip()
+            mk = re.match(r"(requires|ensures|invariant_except_break|invariant|decreases)\b", text)
+            if mk:
+                prev_kw = mk.group(1)
+            elif prev_kw:
+                text = prev_kw + " " + text
+            else:
+                raise Lost(f"clause {cid}: no contract keyword")
+            if prev_kw != "decreases" and not text.rstrip().endswith(","):
+                text = text.rstrip() + ","
+            tags = frozenset(cl[3]) if len(cl) > 3 and cl[3] is not None else None
+            self.clauses.append({"id": cid, "kind": kind, "fn": fn, "tags": sorted(tags) if tags else None})
             for t in text.rstrip("\n").split("\n"):
                 lines.append("    " + t)
-                origins.append(("clause", cid, kind, fn))
+                origins.append(("clause", cid, kind, fn, tags))
         l, c = self.buf.pos(off)
         line, o = self.buf.lines[l], self.buf.origins[l]
         before, after = line[:c], line[c:]
@@ -294,23 +308,28 @@ class Item:
         self.buf.lines[l : l + 1] = new_lines
         self.buf.origins[l : l + 1] = new_orig
 
-    def body_start(self, fn, cid, kind, text):
+    def _org(self, cid, kind, fn, tags):
+        tags = frozenset(tags) if tags is not None else None
+        self.clauses.append({"id": cid, "kind": kind, "fn": fn, "tags": sorted(tags) if tags else None})
+        return ("clause", cid, kind, fn, tags)
+
+    def body_start(self, fn, cid, kind, text, tags=None):
         _, bo, _ = self.fn_span(fn)
-        self.buf.insert_at(bo + 1, ["    " + t for t in text.split("\n")], ("clause", cid, kind, fn))
+        self.buf.insert_at(bo + 1, ["    " + t for t in text.split("\n")], self._org(cid, kind, fn, tags))
         return self
 
-    def loop_body_start(self, fn, n, cid, kind, text):
+    def loop_body_start(self, fn, n, cid, kind, text, tags=None):
         _, bo, _ = self.loop_span(fn, n)
-        self.buf.insert_at(bo + 1, ["    " + t for t in text.split("\n")], ("clause", cid, kind, fn))
+        self.buf.insert_at(bo + 1, ["    " + t for t in text.split("\n")], self._org(cid, kind, fn, tags))
         return self
 
-    def body_end(self, fn, cid, kind, text):
+    def body_end(self, fn, cid, kind, text, tags=None):
         """before the closing brace of the body (after the last statement; only for bodies with no tail expression)"""
         _, _, bc = self.fn_span(fn)
-        self.buf.insert_at(bc, ["    " + t for t in text.split("\n")], ("clause", cid, kind, fn))
+        self.buf.insert_at(bc, ["    " + t for t in text.split("\n")], self._org(cid, kind, fn, tags))
         return self
 
-    def at(self, fn, where, anchor, cid, kind, text, nth=None, regex=False, optional=None):
+    def at(self, fn, where, anchor, cid, kind, text, nth=None, regex=False, optional=None, tags=None):
         """insert before/after the statement matched by anchor inside fn.
         kind: 'hint' | 'ghost' (proof aids).  A lost hint anchor is recorded (degraded mode), not fatal,
         unless optional is False."""
@@ -320,17 +339,18 @@ class Item:
         except Lost as e:
             if optional is False:
                 raise
-            self.hints_lost.append({"id": cid, "fn": fn, "anchor": anchor, "why": str(e)})
+            self.hints_lost.append({"id": cid, "fn": fn, "anchor": anchor, "why": str(e), "tags": sorted(tags) if tags else None})
             return self
         lines = ["    " + t for t in text.split("\n")]
+        org = self._org(cid, kind, fn, tags)
         if where == "before":
             l, _ = self.buf.pos(m.start())
             off = self.buf._starts()[l]
-            self.buf.insert_at(off, lines, ("clause", cid, kind, fn))
+            self.buf.insert_at(off, lines, org)
         else:
             l, _ = self.buf.pos(m.end() - 1)
             self.buf.lines[l + 1 : l + 1] = lines
-            self.buf.origins[l + 1 : l + 1] = [("clause", cid, kind, fn)] * len(lines)
+            self.buf.origins[l + 1 : l + 1] = [org] * len(lines)
         return self
 
 
@@ -371,6 +391,36 @@ def cut_item(repo, relpath, anchor, end=None):
     return Item(relpath, anchor, Buf(lines, origins), first_line, sha)
 
 
+def spec_canaries(buf):
+    """insert a start-of-body `assert(false)` canary line into every `proof fn` of a spec buffer"""
+    names = []
+    k = 0
+    while True:
+        s = buf.text
+        mask = code_mask(s)
+        ms = [m for m in re.finditer(r"\bproof\s+fn\s+(\w+)", s) if mask[m.start()]]
+        if k >= len(ms):
+            break
+        m = ms[k]
+        k += 1
+        p = s.index("(", m.end())
+        j = match_close(s, mask, p) + 1
+        depth = 0
+        while j < len(s):
+            if mask[j]:
+                if s[j] in "([":
+                    depth += 1
+                elif s[j] in ")]":
+                    depth -= 1
+                elif s[j] == "{" and depth == 0:
+                    break
+            j += 1
+        name = m.group(1)
+        names.append(name)
+        buf.insert_at(j + 1, ["    assert(false);"], ("clause", "canary." + name, "canary", name, None))
+    return names
+
+
 # ----------------------------------------------------------------------------------------------
 # unit assembly
 
@@ -384,6 +434,7 @@ class Unit:
         self.rlimit = None
         self.contracted = []  # (fn display name, relpath, clause ids)
         self.theorems = []
+        self.spec_lemmas = []
 
     def use(self, line):
         self.header.append(line)
@@ -394,7 +445,10 @@ class Unit:
     def spec(self, relfile):
         p = f"{self.verif}/spec/{relfile}"
         lines = open(p).read().rstrip("\n").split("\n")
-        self.parts.append(("spec", lines, relfile))
+        buf = Buf(lines, [("spec", relfile, k + 1) for k in range(len(lines))])
+        names = spec_canaries(buf)
+        self.spec_lemmas += names
+        self.parts.append(("spec", buf, relfile))
 
     def item(self, relpath, anchor):
         it = cut_item(self.repo, relpath, anchor)
@@ -402,7 +456,7 @@ class Unit:
         self.parts.append(("item", it))
         return it
 
-    def render(self, disabled=frozenset(), canaries=False):
+    def render(self, disabled=frozenset(), canaries=False, view=None):
         """-> (text, origins list per generated line (1-based index = line-1))"""
         out, org = [], []
         for h in self.header:
@@ -416,17 +470,30 @@ class Unit:
                     out.append(l)
                     org.append(p[2])
             elif p[0] == "spec":
-                for k, l in enumerate(p[1]):
+                for l, o in zip(p[1].lines, p[1].origins):
+                    if o[0] == "clause" and o[2] == "canary" and not canaries:
+                        continue
                     out.append(l)
-                    org.append(("spec", p[2], k + 1))
+                    org.append(o)
             else:
                 it = p[1]
+                last_kw = None
                 for l, o in zip(it.buf.lines, it.buf.origins):
                     if o[0] == "clause":
                         if o[1] in disabled:
                             continue
                         if o[2] == "canary" and not canaries:
                             continue
+                        if view is not None and o[4] is not None and view not in o[4]:
+                            continue
+                        if o[2] == "contract":
+                            mk = re.match(r"(\s*)(requires|ensures|invariant_except_break|invariant|decreases)\b", l)
+                            if mk:
+                                if mk.group(2) == last_kw:
+                                    l = mk.group(1) + " " * len(mk.group(2)) + l[mk.end():]
+                                last_kw = mk.group(2)
+                    else:
+                        last_kw = None
                     out.append(l)
                     org.append(o)
             out.append("")
